@@ -272,3 +272,34 @@ Example late_map_regression :
   = Ok (TStruct [SField (lit "m") (TMap (TAtom ALong) (TAtom ADouble) true) true [];
                  SField (lit "n") (TAtom ALong) true []]).
 Proof. vm_compute. split; reflexivity. Qed.
+
+(* ---- Rows are matched to an explicit schema BY FIELD NAME, whatever order the Row lists its fields in
+   (a Row built from keyword arguments sorts them): a Row that holds under every field name the value of a valid row is verified
+   and createDataFrame(rows, schema).collect() gives the values back under the right names
+   (StructType._match_fields_by_name; full since the repair of the finding
+   create_s:row-field-order:positional-conversion).  Nested re-ordered Rows: correspondence. *)
+Theorem C19_create_with_schema_by_name : forall local fs vals names' vals',
+  inferable (TStruct fs) -> is_row_of (TStruct fs) (PRow (map sf_name fs) vals) ->
+  strs_eqb names' (map sf_name fs) = false -> nodupb names' = true ->
+  strs_eqb (sort_strs names') (sort_strs (map sf_name fs)) = true ->
+  mapM (row_get names' vals') (map sf_name fs) = Ok vals ->
+  verify (TStruct fs) true (PRow names' vals') = Ok tt /\
+  create_with_schema local (TStruct fs) [PRow names' vals'] = Ok [tz_local local (PRow (map sf_name fs) vals)].
+Proof. exact create_with_schema_by_name. Qed.
+
+(* the verifier depends on a Row only through the value found under each field name *)
+Theorem C19_verify_row_by_name : forall ns vs ns' vs' fs n,
+  (forall f, In f fs -> row_get ns vs (sf_name f) = row_get ns' vs' (sf_name f)) ->
+  verify (TStruct fs) n (PRow ns vs) = verify (TStruct fs) n (PRow ns' vs').
+Proof. exact verify_row_by_name. Qed.
+
+Example by_name_regression_rows :
+  create_with_schema 0
+    (TStruct [SField (lit "b") (TAtom AString) true []; SField (lit "a") (TAtom ALong) true []])
+    [PRow [lit "a"; lit "b"] [PInt 1; PStr (lit "x")]]
+  = Ok [PRow [lit "b"; lit "a"] [PStr (lit "x"); PInt 1]] /\
+  create_with_schema 0
+    (TStruct [SField (lit "b") (TAtom ATimestamp) true []; SField (lit "a") (TAtom ALong) true []])
+    [PRow [lit "a"; lit "b"] [PInt 1; PDatetime 5 None]]
+  = Ok [PRow [lit "b"; lit "a"] [PDatetime 5 None; PInt 1]].
+Proof. exact by_name_regression. Qed.
